@@ -176,6 +176,9 @@ class DynEngine(Engine):
         {'pre': ['zeta.zf', 'beta.tools.bf', 'alpha.tools.af'],
          'calls': [[DYN, a1, ['bind', '', 'pkga.util.f', 'x', 1]], [['bind', '', 'zeta.zf', 'x', 1]], [['bind', '', 'beta.tools.bf', 'x', 2]],
                    [['bind', 's1', 'alpha.tools.af', 'x', 3]]]},
+        {'pre': ['zeta.zf@pkga.util.C.meth'], 'calls': [[DYN, a1, ['bind', '', 'pkga.util.C.meth', 'x', 1]], [DYN, a1, ['bind', '', 'pkga.util.f', 'x', 1]]]},
+        {'pre': ['zeta.zf@pkga.util.C'], 'calls': [[DYN, a1, ['bind', '', 'pkga.util.C', 'x', 1]]]},
+        {'pre': ['zeta.zf@pkga.util.f'], 'calls': [[DYN, a2, ['bind', '', 'u.f', 'x', 1]], [DYN, a2, ['bind', '', 'u.g', 'x', 1]]]},
         [[DYN, a1, ['bind', '', 'pkga.util.f', 'x', 1], ['bind', 's', 'pkga.util.g', 'y', [[], 'pkga.util.C']]],
          [DYN, a2, ['bind', '', 'u.f', 'z', 2], ['bind', '', 'u.C.meth', 'q', 3], ['bind', '', 'pkga.util.f', 'w', 4]]],
         [[a1, DYN], [['import', '__gin__.dynamic_registration', True, 'dr']], [['import', '__gin__.nosuch', True, None]],
@@ -218,6 +221,9 @@ class DynEngine(Engine):
         else:
           stmts.append(['block', scope, sel])
       calls.append(stmts)
+    if rng.random() < 0.08:
+      tgt = rng.choice(['pkga.util.C.meth', 'pkga.util.f', 'pkga.util.C', 'pkgb.util.C.meth2', 'pkga.util.C.Inner', 'top.g'])
+      return {'pre': [rng.choice(PRE) + '@' + tgt], 'calls': calls}
     if rng.random() < 0.3:
       pre = rng.sample(PRE, rng.randint(1, 3))
       rng.shuffle(pre)
@@ -262,7 +268,8 @@ class DynEngine(Engine):
     w2 = World()
     try:
       pre_c = C.clist(['{| ce_sel := %s; ce_obj := %d; ce_method := false; ce_src := None; ce_home := (%s, %s) |}' %
-                       (C.cstr(p), w2.ids[p], C.cstr(p.rpartition('.')[0]), C.cstr(p.rpartition('.')[2])) for p in pre]) if pre else '(@nil centry)'
+                       (C.cstr(p.rpartition('@')[2]), w2.ids[p.partition('@')[0]], C.cstr(p.rpartition('@')[2].rpartition('.')[0]),
+                        C.cstr(p.rpartition('.')[2])) for p in pre]) if pre else '(@nil centry)'
     finally:
       w2.close()
     return '(%s, %s, %s)' % (univ, pre_c, calls)
@@ -289,7 +296,11 @@ class DynEngine(Engine):
       cfg = gin.config
       builtin = {k for k, _ in cfg._REGISTRY.items()}  # pylint: disable=protected-access
       for p in pre:
-        gin.register(w.objs[p])
+        if '@' in p:          # obj@selector: registered from Python under a chosen (colliding) selector
+          o, _, tgt = p.partition('@')
+          gin.register(tgt.rpartition('.')[2], module=tgt.rpartition('.')[0])(w.objs[o])
+        else:
+          gin.register(w.objs[p])
       obs = []
       for stmts in case:
         try:
@@ -382,6 +393,7 @@ class DynEngine(Engine):
       from harness import findings  # pylint: disable=g-import-not-at-top
       for ci, stmts in enumerate(case):
         table, dyn, valid = {}, False, True
+        taken = [p.partition('@')[2] for p in pre if '@' in p]
         seen_import = False
         for st in stmts:
           if st[0] == 'import':
@@ -404,6 +416,8 @@ class DynEngine(Engine):
               r = findings._resolve(table, n)
               if not r or r[0] not in w.objs:
                 valid = False
+              elif any(r[0] == t or r[0].startswith(t + '.') for t in taken):
+                valid = False    # a selector already taken by another object is a legitimate ValueError
         if valid and isinstance(obs[ci], T):
           fails.append(('valid-statement-rejected', 'call %d raised %s although every name is provided by the text\'s own imports: %r' %
                         (ci, obs[ci].args[0], render(stmts))))
